@@ -13,7 +13,9 @@ R4 length refusal : AttestedCredentialData::new returns Ok only through the succ
                     private and the only other constructor is from_reader (u16-bounded by type).
 Not decided: round-trip equality for all values, behaviour on every truncation inside ciborium/coset.
 """
-from . import core, flow, names, intervals, summary
+from . import core, flow, names, intervals, normal, summary
+
+presence_selection = flow.presence_selection
 from .framework import where, short, api_name
 from .common import find_aggs, term_fields
 
@@ -23,12 +25,8 @@ FLAGS = {"UP": 0x01, "UV": 0x04, "BE": 0x08, "BS": 0x10, "AT": 0x40, "ED": 0x80}
 
 
 def chain_segments(t):
-    """flatten Iterator::chain(a, b) nests (and a trailing collect / into_iter)"""
-    while isinstance(t, tuple) and t and t[0] == "call" and (names.is_(t[1], "Iterator::collect") or names.is_(t[1], "IntoIterator::into_iter")):
-        t = t[2][0]
-    if isinstance(t, tuple) and t and t[0] == "call" and names.is_(t[1], "Iterator::chain"):
-        return chain_segments(t[2][0]) + chain_segments(t[2][1])
-    return [t]
+    """ordered segments of a byte-building value (iterator chains and push/extend sequences alike)"""
+    return flow.byte_segments(t)
 
 
 def has(t, pred):
@@ -67,31 +65,41 @@ def run(chk):
         chk.touched(b)
 
     # ---------------- R1
+    S = summary.Summaries(p)
+    N = normal.Normalizer(p, S)
     T = flow.Terms(p, tv)
-    ret = flow.simplify_term(T.place(0, (), tv.return_blocks()[0], "t"))
+    ret = N.norm(T.place(0, (), tv.return_blocks()[0], "t"))
     segs = chain_segments(ret)
-    chk.ob("R1 writer layout", "R1|to_vec|segments", len(segs) == 5, where(tv), "%d chained segments: %s" % (len(segs), [flow.term_str(s)[:70] for s in segs]))
+    chk.ob("R1 writer layout", "R1|to_vec|segments", len(segs) == 5, where(tv), "%d segments: %s" % (len(segs), [flow.term_str(s)[:70] if s[0] != "when" else "when %s: %s" % (flow.term_str(s[1])[:40], [flow.term_str(x)[:50] for x in s[3]]) for s in segs]))
+
+    def optional_segment(seg, field):
+        """("when", presence test of self.<field> on its Some edge, [content]) -> content, else None"""
+        if not (isinstance(seg, tuple) and seg and seg[0] == "when" and len(seg[3]) == 1):
+            return None
+        if not flow.asserts_ok(seg[1], seg[2], lambda x: x == ("field", ("param", 1), field)):
+            return None
+        return seg[3][0]
     if len(segs) == 5:
         f0 = field_ty(p, AD, "rp_id_hash")
         chk.ob("R1 writer layout", "R1|to_vec|0 rpIdHash[32]", segs[0] == ("field", ("param", 1), "rp_id_hash") and f0 and f0["ty"] == "[u8; 32]", where(tv),
                "segment 0 = %s : %s" % (flow.term_str(segs[0]), f0["ty"] if f0 else "?"))
         s1 = segs[1]
-        ok1 = is_call(s1, "once") and has(s1, lambda x: x == ("field", ("param", 1), "flags"))
-        conv = has(s1, lambda x: isinstance(x, tuple) and x and x[0] == "call" and (names.is_(x[1], "Into::into") or names.is_(x[1], "Flags::bits")))
-        chk.ob("R1 writer layout", "R1|to_vec|1 flags(1)", ok1, where(tv), "segment 1 = %s (one byte: iter::once of the flags)" % flow.term_str(s1)[:160])
+        ok1 = s1[0] == "array" and len(s1[1]) == 1 and has(s1, lambda x: x == ("field", ("param", 1), "flags"))
+        chk.ob("R1 writer layout", "R1|to_vec|1 flags(1)", ok1, where(tv), "segment 1 = %s (one byte: the flags)" % flow.term_str(s1)[:160])
         s2 = segs[2]
-        ok2 = is_call(s2, "u32::to_be_bytes") and self_field(s2, "counter") and has(s2, lambda x: is_call(x, "Option::unwrap_or_default") or (is_call(x, "Option::unwrap_or") and x[2][1] == ("const", 0)))
+        ok2 = is_call(s2, "u32::to_be_bytes")
+        if ok2:
+            sel, ctr = presence_selection(s2[2][0], lambda x: x == ("field", ("param", 1), "counter"))
+            ok2 = set(sel) == {True, False} and sel[True] == ("payload", ctr) and sel[False] in (("default",), ("const", 0))
         chk.ob("R1 writer layout", "R1|to_vec|2 counter be32", ok2, where(tv), "segment 2 = %s" % flow.term_str(s2))
-        s3 = segs[3]
-        ok3 = self_field(s3, "attested_credential_data") and has(s3, lambda x: x == ("const", ii.path) or (isinstance(x, tuple) and x and x[0] == "const" and isinstance(x[1], str) and x[1].startswith(ii.path))) and is_call(s3, "Iterator::flatten")
-        chk.ob("R1 writer layout", "R1|to_vec|3 attested credential data (optional)", ok3, where(tv), "segment 3 = %s" % flow.term_str(s3)[:200])
-        s4 = segs[4]
-        clos = [x for x in _sub(s4) if isinstance(x, tuple) and len(x) == 3 and x[0] == "closure"]
-        cb_ok = bool(clos) and clos[0][1] in p.bodies and any(names.call_is(t, "ciborium::ser::into_writer") for bb, t in p.bodies[clos[0][1]].calls())
-        ok4 = self_field(s4, "extensions") and is_call(s4, "Iterator::flatten") and cb_ok
-        chk.ob("R1 writer layout", "R1|to_vec|4 extensions cbor (optional)", ok4, where(tv), "segment 4 = %s ; closure writes CBOR: %s" % (flow.term_str(s4)[:160], cb_ok))
+        c3 = optional_segment(segs[3], "attested_credential_data")
+        ok3 = c3 is not None and isinstance(c3, tuple) and len(c3) == 4 and c3[0] == "call" and c3[1] == ii.path and c3[2][0] == ("payload", ("field", ("param", 1), "attested_credential_data"))
+        chk.ob("R1 writer layout", "R1|to_vec|3 attested credential data (optional)", ok3, where(tv), "segment 3 = present iff self.attested_credential_data is Some: %s" % (flow.term_str(c3)[:200] if c3 else flow.term_str(segs[3])[:200]))
+        c4 = optional_segment(segs[4], "extensions")
+        ok4 = c4 is not None and c4[0] == "upd" and names.is_(c4[1], "ciborium::ser::into_writer") and has(c4[3], lambda x: x == ("payload", ("field", ("param", 1), "extensions"))) and flow.byte_segments(c4[2]) == []
+        chk.ob("R1 writer layout", "R1|to_vec|4 extensions cbor (optional)", ok4, where(tv), "segment 4 = present iff self.extensions is Some: %s" % (flow.term_str(c4)[:160] if c4 else flow.term_str(segs[4])[:160]))
     T2 = flow.Terms(p, ii)
-    ret2 = flow.simplify_term(T2.place(0, (), ii.return_blocks()[0], "t"))
+    ret2 = N.norm(T2.place(0, (), ii.return_blocks()[0], "t"))
     seg2 = chain_segments(ret2)
     chk.ob("R1 writer layout", "R1|acd|segments", len(seg2) == 4, where(ii), "%d chained segments: %s" % (len(seg2), [flow.term_str(s)[:70] for s in seg2]))
     if len(seg2) == 4:
@@ -248,48 +256,83 @@ def run(chk):
         chk.ob("R3 flags", "R3|AT|with-section", ok, where(sa), "set_attested_credential_data = %s" % [flow.term_str(x.value)[:200] for x in o])
     for b, bb in users["AT"]:
         if api_name(b).endswith("to_vec"):
-            conds = flow.conditions(p, b, bb)
-            ok = any(t[0] == "call" and names.is_(t[1], "Option::is_some") and has(t, lambda x: x == ("field", ("param", 1), "attested_credential_data")) and flow.lab_true(l) for sb, l, t in conds)
+            conds = normal.conditions(N, p, b, bb) or []
+            ok = any(flow.asserts_ok(t, l, lambda x: x == ("field", ("param", 1), "attested_credential_data")) for sb, l, t in conds)
             chk.ob("R3 flags", "R3|AT|to_vec-only-when-present", ok, where(b, bb), "the OR with AT is conditioned on attested_credential_data.is_some(): %s" % ok)
     for nm in ("set_make_credential_extensions", "set_assertion_extensions"):
         b = p.method(AD, nm)
         if not chk.require("R3 flags", "R3|ED|%s" % nm, b, AD, "%s not found" % nm):
             continue
         chk.touched(b)
-        o = S.outcomes(b)
+        o = normal.rows(S, b, N)
         with_ed = [x for x in o if has(x.value, lambda y: (isinstance(y, tuple) and len(y) == 4 and y[0] == "upd" and names.is_(y[1], "BitOrAssign::bitor_assign")) or is_call(y, "AuthenticatorData::set_flags"))]
         without = [x for x in o if x.variant[:1] == ("Ok",) and x not in with_ed]
         ok = len(with_ed) >= 1 and len(without) >= 1
+        # the value that decides: the request's outputs (param 2) reduced to Some(non-empty contents) / None
+        is_zip = lambda y: isinstance(y, tuple) and len(y) == 4 and y[0] == "call" and y[1].endswith("::zip_contents") and has(y, lambda z: z == ("param", 2))
+        is_contents = lambda y: is_zip(y) or (isinstance(y, tuple) and y and y[0] == "gamma" and has(y, is_zip) and flow.is_discr(y[1], ("param", 2)))
         for x in with_ed:
-            # ED rows: extension value present (Some edge of and_then(zip_contents)) and the extensions field written
-            present = any(t[0] == "discr" and has(t, lambda y: is_call(y, "Option::and_then")) and l == ("in", "1") for t, l, fn, w in x.conds)
+            # ED rows: extension contents present and the extensions member written
+            present = any(flow.asserts_ok(t, l, is_contents) for t, l, fn, w in x.conds)
             wrote = has(x.value, lambda y: isinstance(y, tuple) and len(y) == 3 and y[0] == "with")
             ok = ok and present and wrote
         for x in without:
-            absent = any(t[0] == "discr" and has(t, lambda y: is_call(y, "Option::and_then")) and (l == ("in", "0") or l[0] == "notin") for t, l, fn, w in x.conds)
+            absent = any(flow.asserts_fail(t, l, is_contents) or flow.asserts_fail(t, l, lambda y: y == ("param", 2)) for t, l, fn, w in x.conds)
             unchanged = x.value == ("agg", "core::result::Result", "Ok", (("0", ("param", 1)),))
             ok = ok and absent and unchanged
         chk.ob("R3 flags", "R3|ED|%s|exactly-when-non-empty" % nm, ok, where(b), "rows: %s" % [(x.vstr(), flow.term_str(x.value)[:90], x.cond_strs()[:2]) for x in o][:4])
-    # reader: sections parsed iff flag set, errors propagated
-    thens = [(bb, t) for bb, t in fs.calls() if names.call_is(t, "bool::then")]
+    # reader: sections parsed iff flag set, errors propagated — read off the decision table of from_slice in normal form
+    def flag_tested(t):
+        """the flag constant of a `contains(flag)` test: Flags::contains(x, F) or (x & F) == F"""
+        if is_call(t, "Flags::contains"):
+            fl = [const_flag(x) for x in _sub(t[2][1])]
+            return [f for f in fl if f][0] if any(fl) else None
+        if isinstance(t, tuple) and t and t[0] == "binop" and t[1] == "Eq":
+            for a, b in ((t[2], t[3]), (t[3], t[2])):
+                if isinstance(a, tuple) and a and a[0] == "binop" and a[1] == "BitAnd":
+                    fa = {const_flag(x) for x in _sub(a)} - {None}
+                    fb = {const_flag(x) for x in _sub(b)} - {None}
+                    if len(fa) == 1 and fa == fb:
+                        return next(iter(fa))
+        return None
+    readers = {"AT": ("attested_credential_data", lambda x: is_call(x, "AttestedCredentialData::from_reader")), "ED": ("extensions", lambda x: is_call(x, "ciborium::de::from_reader"))}
+    rws = normal.rows(S, fs, N, expand=False)
+    okrows = [o for o in rws if o.variant[:1] == ("Ok",)]
+    errrows = [o for o in rws if o.variant[:1] == ("Err",)]
     secs = {}
-    for bb, t in thens:
-        c = flow.simplify_term(Tf.operand(t["args"][0], bb, "t"))
-        fl = [const_flag(x) for x in _sub(c) if const_flag(x)]
-        clo = flow.simplify_term(Tf.operand(t["args"][1], bb, "t"))
-        reads_what = None
-        if clo[0] == "closure" and clo[1] in p.bodies:
-            cb = p.bodies[clo[1]]
-            if any(names.call_is(t2, "AttestedCredentialData::from_reader") for b2, t2 in cb.calls()):
-                reads_what = "acd"
-            elif any(names.call_is(t2, "ciborium::de::from_reader") for b2, t2 in cb.calls()):
-                reads_what = "ext"
-        if is_call(c, "Flags::contains") and fl:
-            secs[fl[0]] = reads_what
-    chk.ob("R3 flags", "R3|from_slice|sections-iff-flags", secs == {"AT": "acd", "ED": "ext"}, where(fs), "flag -> section parsed: %s" % secs)
-    tr = [t for bb, t in fs.calls() if names.call_is(t, "Option::transpose")]
-    n_try = len([t for t in flow.try_sites(fs)])
-    chk.ob("R3 flags", "R3|from_slice|section-errors-propagated", len(tr) == 2 and n_try >= 3, where(fs), "transpose()? on both optional sections: %d transposes, %d `?`" % (len(tr), n_try))
+    problems = []
+    combos = set()
+    for o in okrows:
+        ad = dict(o.value[3]).get("0")
+        fields = dict(ad[3]) if isinstance(ad, tuple) and ad and ad[0] == "agg" else {}
+        setflags = {}
+        for t, l, f, w in o.conds:
+            a, pol = flow.bool_atom(t, l)
+            fl = flag_tested(a)
+            if fl in readers and pol is not None:
+                setflags[fl] = pol
+        combos.add((setflags.get("AT"), setflags.get("ED")))
+        for fl, (fld, is_reader) in readers.items():
+            parsed = any(flow.asserts_ok(t, l, is_reader) for t, l, f, w in o.conds)
+            v = fields.get(fld)
+            if setflags.get(fl) is True:
+                good = parsed and isinstance(v, tuple) and v[:3] == ("agg", "core::option::Option", "Some") and flow.is_payload_of(dict(v[3])["0"], is_reader)
+                if good:
+                    secs[fl] = fld
+                else:
+                    problems.append("flag %s set but %s = %s (parsed ok: %s)" % (fl, fld, flow.term_str(v)[:80] if v else "?", parsed))
+            elif setflags.get(fl) is False:
+                if v != normal.NONE or parsed:
+                    problems.append("flag %s clear but %s = %s" % (fl, fld, flow.term_str(v)[:80] if v else "?"))
+            else:
+                problems.append("an accepting row does not test flag %s" % fl)
+    complete = combos == {(True, True), (True, False), (False, True), (False, False)}
+    chk.ob("R3 flags", "R3|from_slice|sections-iff-flags", not problems and complete and secs == {"AT": "attested_credential_data", "ED": "extensions"}, where(fs),
+           problems[0] if problems else "accepting rows %s: a section is parsed into its member exactly when its flag is set (%s)" % (sorted(combos, key=str), secs))
+    prop = {}
+    for fl, (fld, is_reader) in readers.items():
+        prop[fl] = any(any(flow.asserts_fail(t, l, is_reader) for t, l, f, w in o.conds) and has(o.value, lambda x: isinstance(x, tuple) and len(x) == 2 and x[0] == "errpayload" and is_reader(x[1])) for o in errrows)
+    chk.ob("R3 flags", "R3|from_slice|section-errors-propagated", all(prop.values()), where(fs), "a failing section reader ends the parse with its own error: %s" % prop)
 
     # ---------------- R4
     o = S.local_outcomes(nw)
